@@ -74,7 +74,13 @@ pub fn plan_for(seed: u64, run: u64, files: &[(String, Vec<u8>)]) -> C07Plan {
         let (name, bytes) = files[run as usize].clone();
         ModelSrc::File { name, bytes }
     } else {
-        let k = ModelKnobs { max_entries: if rng.chance(1, 10) { 40 } else { 8 }, ..ModelKnobs::default() };
+        // mostly small models (every offset is enumerated); one in ten medium; one in 150 larger
+        // than the 8 KiB buffers of std::io, whose crash points are enumerated around the buffer
+        // boundaries, at both ends and on a stride in between
+        let k = ModelKnobs {
+            max_entries: if run % 150 == 149 { 1500 } else if rng.chance(1, 10) { 40 } else { 8 },
+            ..ModelKnobs::default()
+        };
         ModelSrc::Gen(gen_model(&mut rng, &k))
     };
     let write_scheds = (0..3).map(|_| Sched::benign(&mut rng)).collect();
@@ -114,6 +120,17 @@ pub struct C07Stats {
     pub model_hash: u64,
     pub len: usize,
     pub digest: u64,
+}
+
+/// Crash points to enumerate for a serialisation of `l` bytes: all of them up to 3000 bytes,
+/// otherwise both ends, a window around every multiple of 8192 and a stride of 61.
+pub fn offsets(l: usize) -> Vec<usize> {
+    if l <= 3000 {
+        return (0..l).collect();
+    }
+    let mut v: Vec<usize> = (0..l).filter(|&p| p < 64 || p + 200 >= l || p % 61 == 0 || (p % 8192) < 3 || (p % 8192) > 8188).collect();
+    v.dedup();
+    v
 }
 
 fn region(p: usize) -> &'static str {
@@ -198,6 +215,9 @@ pub fn execute(plan: &C07Plan) -> (Option<C07Violation>, C07Stats) {
     if l > 64 {
         probe!("serialisation-exceeds-one-bufreader-fill");
     }
+    if l > 8192 {
+        probe!("serialisation-exceeds-8KiB(std buffer size; crash points sampled, not exhaustive)");
+    }
     if want_sc("S1") {
         match guarded(|| m.to_vec().map_err(|e| e.to_string())) {
             None => fail!("S1:panic@to_vec", "S1", 0, "to_vec", last_panic()),
@@ -260,7 +280,7 @@ pub fn execute(plan: &C07Plan) -> (Option<C07Violation>, C07Stats) {
             WFail::Err(Kind::Other),
             WFail::Err(Kind::TimedOut),
         ];
-        for p in 0..l {
+        for p in offsets(l) {
             if !want("S3", p) {
                 continue;
             }
@@ -391,7 +411,7 @@ pub fn execute(plan: &C07Plan) -> (Option<C07Violation>, C07Stats) {
 
     // ---- S5: truncation at every offset -----------------------------------------------------
     if want_sc("S5") {
-        for p in 0..l {
+        for p in offsets(l) {
             if !want("S5", p) {
                 continue;
             }
@@ -432,7 +452,7 @@ pub fn execute(plan: &C07Plan) -> (Option<C07Violation>, C07Stats) {
 
     // ---- S6: hard read error at every offset ---------------------------------------------------
     if want_sc("S6") {
-        for p in 0..l {
+        for p in offsets(l) {
             if !want("S6", p) {
                 continue;
             }
